@@ -546,3 +546,84 @@ def c12(res, tier, seed, replay):
                             "a call that never returns is confirmed by a goroutine dump; a final probe request must succeed")
     res.assumptions += ["one shard directory; requests are forced at the granularity of the H3 yield points",
                         "protocol-level disagreement between code and ShardMgr.tla with all monitors passing is reported as drift, not as a violation"]
+
+
+# ==========================================================================
+# C07: all-or-nothing write batches (WriteTxn.tla design + fault enumeration)
+
+@prop("C07", "fault_enumeration")
+def c07(res, tier, seed, replay):
+    if replay:
+        replay_run(res, replay)
+        return
+    design_check(res, "WriteTxn", "WriteTxn.cfg")
+    expect_design_violation(res, "WriteTxn", "WriteTxn.pinned.cfg", "NoTouchAfterRollback",
+                            "closure returns on the first error while stages still run (the pinned behaviour)")
+    expect_design_violation(res, "WriteTxn", "WriteTxn.noscrap.cfg", "AllOrNothing",
+                            "shared caches not scrapped when the batch does not commit")
+    runs = []
+    if tier == "quick":
+        plan = [("kitchen", "-1", "unl", 2, 6, 8, 2), ("kitchen", "3000", "tiny", 1, 6, 6, 1), ("scalars", "-1", "unl", 1, 6, 6, 1),
+                ("vamana-euclidean", "-1", "unl", 1, 6, 8, 1), ("text", "0", "off", 1, 5, 6, 1)]
+    else:
+        plan = [("kitchen", "-1", "unl", 6, 10, 0, 6), ("kitchen", "3000", "tiny", 4, 10, 0, 4), ("kitchen", "0", "off", 3, 10, 0, 3),
+                ("scalars", "-1", "unl", 4, 10, 0, 4), ("vamana-euclidean", "-1", "unl", 4, 10, 0, 4), ("vamana-hamming", "3000", "tiny", 3, 8, 0, 3),
+                ("flat-jaccard", "-1", "unl", 3, 8, 0, 3), ("text", "-1", "unl", 4, 10, 0, 4)]
+    for i, (cfgname, cache, ctag, hist, batches, maxf, kills) in enumerate(plan):
+        runs.append({"name": f"fault-{cfgname}-{ctag}", "timeout": 2400, "tlc_timeout": 2400,
+                     "args": ["-mode", "fault", "-config", cfgname, "-cache", cache, "-seed", seed * 100 + i, "-hist", hist,
+                              "-batches", batches, "-max-faults", maxf, "-kills", kills, "-rank", 1, "-sample", 25]})
+    results = drive_and_validate(res, runs)
+    nf = nk = nfail = 0
+    distinct = set()
+    for r in results:
+        if not os.path.exists(r["trace"]):
+            continue
+        prev = None
+        with open(r["trace"]) as f:
+            for line in f:
+                if '"ev":"Fault"' in line:
+                    nf += 1
+                    e = json.loads(line)
+                    prev = (r["run"]["name"], e["kind"], e["k"])
+                elif '"ev":"Crash"' in line:
+                    nk += 1
+                    e = json.loads(line)
+                    distinct.add((r["run"]["name"], "kill", e["kind"], e["at"]))
+                    res.sample(summarize_event(line, 300), cap=3)
+                elif prev and ('"ev":"Insert"' in line or '"ev":"Update"' in line or '"ev":"Delete"' in line):
+                    e = json.loads(line)
+                    if e["ok"] == 0:
+                        nfail += 1
+                    distinct.add(prev + (e["ev"], len(e.get("pts", e.get("ids", [])))))
+                    if len(res.coverage["samples"]) < 2 and e["ok"] == 0 and e.get("pts"):
+                        res.sample({"fault": prev[1:], "batch": summarize_event(line, 300)})
+                    prev = None
+    res.coverage["evaluations"] = nf + nk
+    res.coverage["distinct_nontrivial"] = len(distinct)
+    res.coverage["fault_points_failed"] = nfail
+    res.coverage["kill_points"] = nk
+    if nf < 5 or nk < 2:
+        raise Inconclusive("fault enumeration exercised too few fault / kill points")
+
+    def mut(e):
+        # pretend a failed batch left one more point behind
+        if e["ev"] == "Count" and mut.armed:
+            e["n"] += 1
+            return True
+        if e["ev"] == "Fault":
+            mut.armed = True
+        return False
+    mut.armed = False
+    binding_selftest(res, results, mut, what="point count after an injected fault off by one")
+    res.coverage["rule"] = ("for every batch of random histories (all index types, rejections by duplicate / existing id, oversized "
+                            "merged document, wrong field type) the batch is first tried on copies of the database with the k-th "
+                            "fallible storage operation (bucket open, put, delete, scan) failing, with the commit refused, and in a "
+                            "child process killed at the k-th operation, before the commit and right after it; after each trial the "
+                            "warm instance and the reopened file answer the point reads, filter / ranking panels and graph dump, and "
+                            "TLC accepts only 'unchanged' (failure, kill before commit) or 'all effects' (success, kill after commit). "
+                            "A case = (configuration, fault kind, k, batch kind, batch size); quick samples k, thorough takes every k")
+    res.assumptions += ["storage reads through Bucket.Get cannot fail in the diskstore interface (no error result): only bucket opens, "
+                        "puts, deletes and scans are fault points",
+                        "torn writes inside bbolt's commit are not modelled (third party)",
+                        "the memory backend has no rollback and is outside this property"]
